@@ -1080,6 +1080,46 @@ fn exhaustive_space(tier: Tier) -> Vec<Scenario> {
     out
 }
 
+/// Clamp a structurally decoded scenario into the generator's domain (fuzz tier).
+pub fn fuzz_sanitize(sc: &mut Scenario) -> bool {
+    sc.tick_ms = 1 + sc.tick_ms % 3;
+    sc.lat_ms = 1 + sc.lat_ms % 6;
+    sc.capacity = if sc.capacity % 4 == 0 { 64 } else { sc.capacity % 4 };
+    sc.strict_known = false;
+    sc.run_steps = 20 + sc.run_steps % 30;
+    sc.flags.multicast &= sc.flags.udp;
+    sc.flags.outgoing_flood &= sc.flags.outgoing;
+    sc.conns.truncate(5);
+    for c in sc.conns.iter_mut() {
+        c.0 = 1 + c.0 % 39;
+        c.2 %= 2;
+    }
+    if sc.capacity < 8 {
+        sc.flags.accept = true;
+        if sc.flags.two_victims {
+            sc.flags.outgoing = false;
+            sc.flags.outgoing_flood = false;
+        }
+        sc.conns.sort_by_key(|c| c.0);
+        let nv = if sc.flags.two_victims { 2 } else { 1 };
+        let mut last: BTreeMap<usize, u32> = BTreeMap::new();
+        sc.conns.retain(|(st, _, v)| {
+            let ok = last.get(&(v % nv)).map(|l| *st >= l + 4).unwrap_or(true);
+            if ok {
+                last.insert(v % nv, *st);
+            }
+            ok
+        });
+    }
+    sc.ctl.truncate(4);
+    let mut at = 0u32;
+    for c in sc.ctl.iter_mut() {
+        at += 1 + c.0 % 12;
+        c.0 = at.min(48);
+    }
+    !sc.ctl.is_empty()
+}
+
 fn check(tier: Tier, seed: u64) -> i32 {
     let ctx = Ctx::new("C04", tier, seed, "fault_enumeration");
     ctx.replay_corpus(&replay);
